@@ -2,7 +2,7 @@ use std::sync::Arc;
 
 use crate::{
     array::RawBytes,
-    byte_range::{ByteLength, ByteOffset, ByteRange},
+    byte_range::{ByteLength, ByteOffset, ByteRange, InvalidByteRangeError},
 };
 
 use super::{BytesPartialDecoderTraits, CodecError, CodecOptions};
@@ -40,22 +40,22 @@ impl BytesPartialDecoderTraits for ByteIntervalPartialDecoder {
         byte_ranges: &[ByteRange],
         options: &CodecOptions,
     ) -> Result<Option<Vec<RawBytes<'_>>>, CodecError> {
+        // The interval (e.g. from a corrupted shard index) and the requested ranges are untrusted:
+        // a range that does not lie within the interval is an error
         let byte_ranges: Vec<ByteRange> = byte_ranges
             .iter()
-            .map(|byte_range| match byte_range {
-                ByteRange::FromStart(offset, None) => ByteRange::FromStart(
-                    self.byte_offset + offset,
-                    Some(self.byte_length.saturating_sub(*offset)),
-                ),
-                ByteRange::FromStart(offset, Some(length)) => {
-                    ByteRange::FromStart(self.byte_offset + offset, Some(*length))
+            .map(|byte_range| {
+                if !byte_range.is_valid(self.byte_length) {
+                    return Err(InvalidByteRangeError::new(*byte_range, self.byte_length));
                 }
-                ByteRange::Suffix(length) => ByteRange::FromStart(
-                    self.byte_offset + self.byte_length - *length,
-                    Some(*length),
-                ),
+                let offset = self.byte_offset.checked_add(byte_range.start(self.byte_length));
+                offset
+                    .map(|offset| {
+                        ByteRange::FromStart(offset, Some(byte_range.length(self.byte_length)))
+                    })
+                    .ok_or(InvalidByteRangeError::new(*byte_range, self.byte_length))
             })
-            .collect();
+            .collect::<Result<_, _>>()?;
         self.inner.partial_decode(&byte_ranges, options)
     }
 }
@@ -94,22 +94,22 @@ impl AsyncBytesPartialDecoderTraits for AsyncByteIntervalPartialDecoder {
         byte_ranges: &[ByteRange],
         options: &CodecOptions,
     ) -> Result<Option<Vec<RawBytes<'_>>>, CodecError> {
+        // The interval (e.g. from a corrupted shard index) and the requested ranges are untrusted:
+        // a range that does not lie within the interval is an error
         let byte_ranges: Vec<ByteRange> = byte_ranges
             .iter()
-            .map(|byte_range| match byte_range {
-                ByteRange::FromStart(offset, None) => ByteRange::FromStart(
-                    self.byte_offset + offset,
-                    Some(self.byte_length.saturating_sub(*offset)),
-                ),
-                ByteRange::FromStart(offset, Some(length)) => {
-                    ByteRange::FromStart(self.byte_offset + offset, Some(*length))
+            .map(|byte_range| {
+                if !byte_range.is_valid(self.byte_length) {
+                    return Err(InvalidByteRangeError::new(*byte_range, self.byte_length));
                 }
-                ByteRange::Suffix(length) => ByteRange::FromStart(
-                    self.byte_offset + self.byte_length - *length,
-                    Some(*length),
-                ),
+                let offset = self.byte_offset.checked_add(byte_range.start(self.byte_length));
+                offset
+                    .map(|offset| {
+                        ByteRange::FromStart(offset, Some(byte_range.length(self.byte_length)))
+                    })
+                    .ok_or(InvalidByteRangeError::new(*byte_range, self.byte_length))
             })
-            .collect();
+            .collect::<Result<_, _>>()?;
         self.inner.partial_decode(&byte_ranges, options).await
     }
 }
